@@ -12,8 +12,8 @@
 //   /ps      rString  length 8                default "abc"
 //   /preset  rParamI  0..2                    default 0      (changing it re-initialises /dep)
 //   /dep     rParamI  0..100   default depends on /preset: 10, 20, 30
-//   /ai#3    rArrayI  0..100                  default 3 (all elements)
-//   /af#3    rArrayF  -1..1                   default 0.25
+//   /ai#3    rArrayI  0..100                  default 3 (all elements, written [3x3])
+//   /af#3    rArrayF  -0.5..0.75              default 0.25
 //   /at#2    rArrayT                          default false
 //   /sub_on  rToggle                          default true
 //   /sub/    rRecur   enabled by sub_on:   si rParamI 0..50 default 7,  sf rParamF -4..4 default 1.5, st rToggle default false
@@ -63,8 +63,8 @@ inline const rtosc::Ports App::ports = {
 #undef rChangeCb
 #define rChangeCb
     rParamI(dep, rLinear(0, 100), rDefaultDepends(preset), rPresets(10, 20, 30), "depends on the preset"),
-    rArrayI(ai, 3, rLinear(0, 100), rDefault([3 3 3]), "int array"),
-    rArrayF(af, 3, rLinear(-1, 1), rDefault([0.25 0.25 0.25]), "float array"),
+    rArrayI(ai, 3, rLinear(0, 100), rDefault([3x3]), "int array"),                 // a default in repeat notation
+    rArrayF(af, 3, rLinear(-0.5, 0.75), rDefault([0.25 0.25 0.25]), "float array"),   // bounds that are not whole numbers
     rArrayT(at, 2, rDefault([false false]), "toggle array"),
     rToggle(sub_on, rDefault(true), "enables sub"),
     rRecur(sub, rEnabledBy(sub_on), "member sub-tree"),
